@@ -8,7 +8,7 @@ from typing import Iterable
 from .. import astx, modgen
 from ..core import REPO
 
-N_CASES = {"quick": 250, "thorough": 250000}
+N_CASES = {"quick": 1500, "thorough": 250000}
 TIME_BUDGET = {"quick": 60, "thorough": 270}
 META = {
     "rule": "generated models Event/Jet/Trk (Jet and Trk inherit methods from a Particle base class, which may carry callbacks of its own) with harness-owned callbacks placed at random on classes, methods, both, function processors and "
